@@ -225,6 +225,12 @@ func c17Run(c c17Case) string {
 	}
 	in := val.JSON(val.O(map[string]val.Value{"s": val.S(c.Subject)}))
 	got := port.Run(c.expr(), in)
+	// the outcome is a function of the expression and the subject: compiling
+	// and evaluating the same text again in this process gives it again
+	// (patterns - invalid ones included - must not leave anything behind)
+	if again := port.Run(c.expr(), in); !port.Same(got, again) {
+		return fmt.Sprintf("%s on %q gives %s the first time and %s when compiled and evaluated again", c.expr(), c.Subject, got.String(), again.String())
+	}
 	switch {
 	case wantErr:
 		if got.Kind != port.KCompileError && got.Kind != port.KError {
